@@ -108,6 +108,18 @@ fn k_fp_from_repr_range() {
   assert!(some == lt(&l, &P));
 }
 
+/// `Fp::reduce` (ASSUMED by the Verus unit `ff`): subtract the modulus exactly when the limbs are not below it -
+/// every one of the 2^192 limb values
+#[kani::proof]
+#[kani::unwind(5)]
+fn k_fp_reduce() {
+  let l: [u64; 3] = kani::any();
+  let mut x = Fp(l);
+  x.reduce();
+  let want = if lt(&l, &P) { l } else { sub3(&l, &P) };
+  assert!(eq3(&x.0, &want));
+}
+
 /// must FAIL: vacuity canary for the Kani back end
 #[kani::proof]
 fn k_canary_must_fail() {
